@@ -80,14 +80,17 @@ fn c14_hostile_field_content() {
     let mut rng = Rng::new(14);
     let ps = poisons(&mut rng);
     let coins: Vec<&str> = if thorough { vec!["bitcoin", "testnet3", "namecoin", "litecoin", "dogecoin", "myriadcoin", "unobtanium", "noteblockchain"] } else { vec!["bitcoin", "litecoin"] };
-    let mut cases = 0;
-    for coin in coins {
+    // one worker per coin: a run costs ~0.1 s of fixed pipeline start-up whatever the content, and only the opreturn pass
+    // (stdout capture) is serialised
+    let cases = std::sync::atomic::AtomicUsize::new(0);
+    let (ps, cases_ref) = (&ps, &cases);
+    std::thread::scope(|sc| { for coin in coins { sc.spawn(move || {
         for place in 0..3usize {
             let benign = p2pkh_script(&[0x46; 20]);
             let base = match observe(&build(if place == 0 { &benign[..] } else { &[0x51][..] }, place), coin, place) { Ok(b) => b, Err(m) => { fail(suite, "C14:baseline_runs", &format!("{} place {}", coin, place), &m, "Ok"); continue; } };
             for (i, p) in ps.iter().enumerate() {
                 if !thorough && place > 0 && i % 4 != 0 && p.len() < 65_536 { continue; }
-                cases += 1;
+                cases_ref.fetch_add(1, std::sync::atomic::Ordering::Relaxed);
                 let inp = format!("{} field={} content={}", coin, ["scriptPubKey", "scriptSig", "witness item"][place], if p.len() > 40 { format!("{}..({} bytes)", hex(&p[..40]), p.len()) } else { hex(p) });
                 let chain = build(p, place);
                 let r = std::panic::catch_unwind(std::panic::AssertUnwindSafe(|| observe(&chain, coin, place)));
@@ -104,6 +107,6 @@ fn c14_hostile_field_content() {
                 }
             }
         }
-    }
-    finish(suite, cases);
+    }); } });
+    finish(suite, cases.load(std::sync::atomic::Ordering::Relaxed));
 }
